@@ -29,7 +29,8 @@ ALSO = {"C08a": ["C12"], "C10a": ["C12"], "C11b": ["C12"], "C12a": ["C08"], "C12
         "C12k": ["C05"], "C05j": ["C03"], "C20j": ["C18"], "C03j": ["C05"],
         "C19j": ["C15"], "C13j": ["C01", "C12", "C03"], "C18j": ["C03"], "C06j": ["C07"],
         "C07j": ["C12"], "C10k": ["C03", "C05", "C16"], "C05k": ["C03"],
-        "C04k": ["C16", "C13"], "C13k": ["C01", "C09"]}
+        "C04k": ["C16", "C13"], "C13k": ["C01", "C09"],
+        "C12l": ["C06", "C07"], "C16l": ["C05"], "C06k": ["C16", "C07"]}
 
 
 def run(sid, all_checks=False):
